@@ -126,6 +126,19 @@ theorem pinned_copy_new_instance :
     isMissing (copyPinned (.missing 0)) = false ∧ allSingleton (copyPinned (.missing 0)) = false := by
   decide
 
+/-- C20.validator_agrees_with_identity: a State attribute annotated `Missing` accepts exactly the constant – not a
+second instance, not a look-alike (`None`, `False`, empty containers, an object whose `__eq__` always answers True, an
+object that reports `Missing` as its `__class__`); one annotated `str | Missing` accepts a `str` or the constant. -/
+theorem validator_agrees_with_identity (v : Val) :
+    (validMissing v = true ↔ v = .missing 0) ∧
+    (validStrOrMissing v = true ↔ (v = .missing 0 ∨ ∃ s, v = .str s)) := by
+  have key : isMissing v = true ↔ v = .missing 0 := by
+    constructor
+    · intro h; unfold isMissing at h; split at h <;> simp_all
+    · intro h; subst h; rfl
+  refine ⟨key, ?_⟩
+  cases v <;> simp_all [validStrOrMissing]
+
 /-! ## Non-vacuity -/
 
 /-- a state holding MISSING directly, inside a list and inside a dict inside a tuple, depth 4 -/
